@@ -174,6 +174,13 @@ C04_LeaderQuorumDurable ==
             D == {j \in Nodes : DurableAt(j, c, Q.term)}
         IN QuorumOf(D, Q.conf)
 
+(* what a leader counts as acknowledged by a peer is durable there (with the leader's term at that index) *)
+C04_MatchedIsDurable ==
+    (Acting /\ up[an] /\ Q.role = "L") =>
+        \A j \in DOMAIN Q.pr :
+            LET k == Q.pr[j].matched
+            IN (k > 0 /\ ~LogTermErr(Q, QS, k) /\ LogTerm(Q, QS, k) > 0) => DurableAt(j, k, LogTerm(Q, QS, k))
+
 C04_NonLeaderBounded ==
     (Advanced /\ Q.role # "L") => Q.log.committed <= gh.maxLeaderCommit
 
@@ -561,6 +568,7 @@ Converged ==
                   /\ node[j].term = node[ld].term
                   /\ app[j].applied = node[ld].log.committed
                   /\ app[j].sm = app[ld].sm
+                  /\ evt.a.probe => app[j].hasProbe
 
 C10_Converged == evt.ev = "StableEnd" => Converged
 
@@ -573,7 +581,7 @@ Violations ==
     \cup Chk("C02.OneLeaderPerTerm", C02_OneLeaderPerTerm)
     \cup Chk("C03.LeaderComplete", C03_LeaderComplete) \cup Chk("C03.GrantOnlyUpToDate", C03_GrantOnlyUpToDate)
     \cup Chk("C04.LeaderOwnTerm", C04_LeaderOwnTerm) \cup Chk("C04.LeaderQuorumDurable", C04_LeaderQuorumDurable)
-    \cup Chk("C04.NonLeaderBounded", C04_NonLeaderBounded)
+    \cup Chk("C04.NonLeaderBounded", C04_NonLeaderBounded) \cup Chk("C04.MatchedIsDurable", C04_MatchedIsDurable)
     \cup Chk("C05.LogMatching", C05_LogMatching) \cup Chk("C05.LeaderAppendOnly", C05_LeaderAppendOnly)
     \cup Chk("C05.CommittedImmutable", C05_CommittedImmutable)
     \cup Chk("C06.TermMonotone", C06_TermMonotone) \cup Chk("C06.RestartKeepsPromises", C06_RestartKeepsPromises)
